@@ -359,6 +359,20 @@ pub fn check_input(f: &Fmt, input: &[u8], prop: &str, rep: &mut Report) {
             }
         }
     }
+    if (all || prop == "C01" || prop == "C14") && f.docs.iter().any(|d| *d == input) {
+        // curated documents: every combination of chunk size and read size up to 9 (buffer realignments leave stale bytes behind the
+        // valid data; a scanner that looks one byte too far reads them)
+        for chunk in 1..=9usize {
+            for step in 1..=9usize {
+                let s = Sched { chunk, mode: Mode::Step(step), fail_at: None, interrupt: 0 };
+                let o = run(f, input, s);
+                rep.runs += 1;
+                if !same_result(&o, &base) {
+                    fail!(if prop == "C14" { "C14 the result depends only on bytes read from the source" } else { "C01 same result for every read schedule" }, s, format!("one-shot: {:?} {:?}; this schedule: {:?} {:?}", base.items, base.end, o.items, o.end));
+                }
+            }
+        }
+    }
     if all || prop == "C08" {
         if let End::Syntax { line, column, .. } = &base.end {
             // lines: terminated ones plus an unterminated last one; one line more (of length 0) is allowed
